@@ -62,6 +62,9 @@ def _define(prefix):
         LOG.append(["check_at_end", self.description])
         if self.behaviour == "fail":
             raise errors.CheckError("recording check %s fails at the end" % self.description, location)
+        if self.behaviour == "fail-range":
+            # a verdict built on cutplace.ranges (Range.validate raises a RangeValueError, another kind of data error)
+            raise errors.RangeValueError("recording check %s: count is outside the expected range" % self.description, location)
 
     def cleanup(self):
         LOG.append(["cleanup", self.description])
@@ -110,7 +113,7 @@ def gen_case(rng):
         fields.append({"name": "r%d" % i, "type": "Rec", "empty": rng.random() < 0.5, "length": length, "rule": "any"})
     checks = []
     for c in range(rng.choice([0, 1, 1, 2, 3])):
-        checks.append({"desc": "chk%d" % c, "type": "Rec", "behaviour": rng.choice(["accept", "accept", "veto", "fail"])})
+        checks.append({"desc": "chk%d" % c, "type": "Rec", "behaviour": rng.choice(["accept", "accept", "veto", "fail", "fail-range"])})
     header = rng.choice([0, 0, 1, 2])
     model = RM.CidModel(kind, fields, [], header, allowed=allowed, allowed_text=allowed_text)
     model.rec_checks = checks
